@@ -286,6 +286,18 @@ func (raceHarness) Run(spec any) (res verifsim.RunResult) {
 						kind[st] = true
 					}
 				}
+				for a, st := range probeState {
+					facts = append(facts, fmt.Sprintf("probe[%s]=%s", a, st))
+				}
+				for _, c := range later {
+					closed := false
+					select {
+					case <-c.Context().Done():
+						closed = true
+					default:
+					}
+					facts = append(facts, fmt.Sprintf("later[%s] closed=%v", pathName(c), closed))
+				}
 				var kinds []string
 				for k := range kind {
 					kinds = append(kinds, k)
